@@ -195,7 +195,7 @@ let () =
             | _ -> "oracle=fail@unparsable") in
          Printf.printf "%s %s%s | %s\n" (res_name res) (rle (bytes_of_nlist wire)) tail verdict
        | _ -> Printf.printf "noparams | oracle=fail@%s\n" (match itoks with t :: _ -> t | [] -> "empty"))
-    | "conn" :: toks ->
+    | ("conn" | "connB" | "connS") :: toks ->     (* B / S: the read side has an unread body / is shut down: no effect on the write side *)
       (match param_of "rp=" itoks, param_of "ct=" itoks, str_param "c5=" itoks, param_of "rp5=" itoks,
              param_of "ct5=" itoks, param_of "b5=" itoks with
        | Some rp, Some ct, Some c5, Some rp5, Some ct5, Some b5 ->
